@@ -11,7 +11,7 @@ use crate::realrun::{self, CompileOutcome, RunCfg};
 use cvx_core::engine::{Check, CheckInfo, ChunkResult, Tier, Violation};
 use cvx_core::gen_basic::{CfgLite, Family};
 use cvx_core::gen_more::FCall;
-use cvx_core::gen_resolve::{FBadNames, FResolve, FSuperLike};
+use cvx_core::gen_resolve::{FBadNames, FCallMain, FResolve, FSuperLike};
 use cvx_core::ir::Module;
 use cvx_core::refsem::{self, CompileVerdict};
 use serde_json::Value as J;
@@ -57,7 +57,7 @@ impl Judge for ResolveJudge {
 static FAMS: OnceLock<Vec<Box<dyn Family>>> = OnceLock::new();
 
 pub fn families(_tier: Tier) -> &'static Vec<Box<dyn Family>> {
-    FAMS.get_or_init(|| vec![Box::new(FSuperLike), Box::new(FBadNames), Box::new(FCall), Box::new(FResolve)])
+    FAMS.get_or_init(|| vec![Box::new(FCallMain), Box::new(FSuperLike), Box::new(FBadNames), Box::new(FCall), Box::new(FResolve)])
 }
 
 static JUDGE: ResolveJudge = ResolveJudge;
